@@ -51,6 +51,11 @@ def build(chk):
     c_maxAl(chk)
     from .common import template_frame
     template_frame(chk)
+    from . import C03_shock as S03
+    S03.c_efficiency(chk)
+    S03.c_template_efficiency(chk)
+    S03.c_template_integrate(chk)
+    S03.c_template(chk)
 
 
 def c_findTm(chk):
